@@ -15,6 +15,7 @@ import (
 	"time"
 
 	"verif/sim/core"
+	"verif/sim/racew"
 	"verif/sim/run"
 	"verif/sim/tape"
 )
@@ -102,6 +103,10 @@ func TestWorker(t *testing.T) {
 	}
 	if job.Mode == "selftest" {
 		emit("OK", "selftest")
+		return
+	}
+	if job.Mode == "race" {
+		raceMode(job)
 		return
 	}
 	spec, err := run.Get(job.Prop)
@@ -212,4 +217,31 @@ func TestWorker(t *testing.T) {
 		emit("ERR", "bad mode")
 		os.Exit(2)
 	}
+}
+
+// raceMode runs the free-running workloads of a property for job.Deadline seconds (build with -race).
+func raceMode(job Job) {
+	start := time.Now()
+	ops, rounds := 0, 0
+	per := 300 * time.Millisecond
+	for i := uint64(0); time.Since(start).Seconds() < job.Deadline; i++ {
+		seed := int64(tape.Derive(job.Seed, job.Prop+"/race", job.From+i) >> 1)
+		fmt.Fprintf(out, "@@BEGIN %d\n", job.From+i)
+		out.Flush()
+		switch job.Prop {
+		case "C17":
+			if i%2 == 0 {
+				ops += racew.Table(seed, per)
+			} else {
+				ops += racew.Engine(seed, per, 0, 1, 0)
+			}
+		case "C16":
+			ops += racew.UCI(seed, per, int(i%4))
+		case "C18":
+			w := []int{2, 1, 0, 3}[i%4]
+			ops += racew.Engine(seed, per, w, 0, 25)
+		}
+		rounds++
+	}
+	emit("RACE", map[string]any{"ops": ops, "rounds": rounds})
 }
